@@ -65,6 +65,9 @@ def _programs(tier):
             if len(set(combo)) == k:
                 progs.append({"sh": "asserted", "s": list(combo)})
     # separate call sites
+    # sites whose new code needs an import (external by create, HasRepr by fix, and the other way round)
+    for combo in (("ext", "hasreprfix"), ("hasrepr", "extfix"), ("ext", "hasreprfix", "update"), ("hasrepr", "extfix", "trim"), ("ext", "extfix"), ("hasrepr", "hasreprfix")):
+        progs.append({"sh": "sites", "s": list(combo)})
     sites = ("create", "fix", "trim", "update", "trimin", "fixl", "updl")
     for k in (2, 3, 4):
         for combo in itertools.permutations(sites, k) if k == 2 else itertools.combinations(sites, k):
@@ -145,8 +148,13 @@ def source(p):
         body = [ASSERTED[i] for i in p["s"]]
     elif sh == "sites":
         st = {"create": "_ok = 5 == snapshot()", "fix": "_ok = 5 == snapshot(6)", "trim": "_ok = 5 <= snapshot(9)", "update": "_ok = 5 == snapshot(5+0)",
-              "trimin": "_ok = 5 in snapshot([5, 6+0])", "fixl": "_ok = [5, 6] == snapshot([5+0])", "updl": "_ok = [5, 6] == snapshot([5, 6+0])"}
+              "trimin": "_ok = 5 in snapshot([5, 6+0])", "fixl": "_ok = [5, 6] == snapshot([5+0])", "updl": "_ok = [5, 6] == snapshot([5, 6+0])",
+              "hasrepr": "_ok = Opaque(1) == snapshot()", "hasreprfix": "_ok = Opaque(2) == snapshot(0)",
+              "ext": "_ok = outsource('data-1') == snapshot()", "extfix": "_ok = outsource('data-2') == snapshot(0)"}
         out = pre
+        if any(k.startswith(("hasrepr", "ext")) for k in p["s"]):
+            out = ("from inline_snapshot import snapshot, outsource\n\n\nclass Opaque:\n    def __init__(self, n):\n        self.n = n\n    def __repr__(self):\n        return '<Opaque %d>' % self.n\n"
+                   "    def __eq__(self, o):\n        return self.n == o.n if isinstance(o, Opaque) else NotImplemented\n\n\n")
         for i, k in enumerate(p["s"]):
             out += "def test_%d():\n    %s\n\n\n" % (i, st[k])
         return out
@@ -188,6 +196,20 @@ def _step(src, flags, drv):
 
 def _norm(text):
     return ast.dump(ast.parse(text))
+
+
+def _norm_imports(text):
+    tree = ast.parse(text)
+    added = []
+    body = []
+    for n in tree.body:
+        if (isinstance(n, ast.ImportFrom) and n.module == "inline_snapshot" and len(n.names) == 1
+                and n.names[0].name in ("external", "HasRepr") and n.names[0].asname is None):
+            added.append(n.names[0].name)
+        else:
+            body.append(n)
+    tree.body = body
+    return ast.dump(tree), tuple(sorted(added))
 
 
 def explore_program(p, drv):
@@ -245,9 +267,17 @@ def explore_program(p, drv):
             viol.append({"case": case, "what": "unparsable", "detail": "order %s: %s\n%s" % (order, ex, t)})
             return viol, info
         finals.setdefault(k, (" -> ".join(order), t))
+    sig = None
+    if len(finals) > 1:
+        # residual test of the known finding 'import-order': identical programs once the added single-name
+        # `from inline_snapshot import external|HasRepr` statements are compared as a set
+        norm = {_norm_imports(txt) for _, txt in finals.values()}
+        if len(norm) == 1:
+            sig = "import-order"
     if len(finals) > 1:
         desc = "\n".join("[%s]\n%s" % (how, _tail(txt)) for how, txt in finals.values())
-        viol.append({"case": case, "what": "order-dependent-result", "detail": "pending %s; %d different final programs:\n%s\n--- initial ---\n%s" % (P, len(finals), desc, _tail(src))})
+        viol.append({"case": case, "what": "order-dependent-result", "sig": sig,
+                     "detail": "pending %s; %d different final programs:\n%s\n--- initial ---\n%s" % (P, len(finals), desc, _tail(src))})
     return viol, info
 
 
